@@ -366,8 +366,11 @@ impl<RW: QueueRW<T>, T> MultiQueue<RW, T> {
     }
 
     pub fn try_recv(&self, reader: &Reader) -> Result<T, (*const AtomicUsize, TryRecvError)> {
-        let mut ctail_attempt = reader.load_attempt(Relaxed);
+        // Whether this handle is the only consumer of its stream must be known before
+        // the position is loaded: a position loaded first can be stale by the time the
+        // last sibling has gone, and would then be used without any re-validation
         let is_single = reader.is_single();
+        let mut ctail_attempt = reader.load_attempt(Relaxed);
         unsafe {
             loop {
                 let (ctail, wrap_valid_tag) = ctail_attempt.get();
